@@ -73,7 +73,7 @@ theorem wfSecs_cons {s : SecI} {ss : List SecI} (h : wfSecs (s :: ss) = true) :
   simpa [wfSecs] using h
 
 theorem wfFiles_cons {off len : Nat} {f : FileI} {fs : List FileI} (h : wfFiles off len (f :: fs) = true) :
-    wfFile f = true ∧ alignUp off 8 + 24 < len ∧ alignUp off 8 + sizeFile f ≤ len ∧
+    wfFile f = true ∧ alignUp off 8 + 24 ≤ len ∧ alignUp off 8 + sizeFile f ≤ len ∧
     (alignUp off 8 + hdrLenOfAttrs (storedAttrs f)) % alignmentOf (storedAttrs f) = 0 ∧
     wfFiles (alignUp off 8 + sizeFile f) len fs = true := by
   simp only [wfFiles, Bool.and_eq_true, decide_eq_true_eq, beq_iff_eq] at h
@@ -137,8 +137,6 @@ structure WfFfs (zv : Bytes) (v3 : Bool) (attrs rev rsv : Nat) (blocks : List Bl
   hlenlt : endFiles (preLen blocks ext) files + free < 0x4000000000000000
   hlen64 : 64 ≤ endFiles (preLen blocks ext) files + free
   hfiles : wfFiles (preLen blocks ext) (endFiles (preLen blocks ext) files + free) files = true
-  htail : endFiles (preLen blocks ext) files + 24 < endFiles (preLen blocks ext) files + free →
-      alignUp (endFiles (preLen blocks ext) files) 8 + 32 ≤ endFiles (preLen blocks ext) files + free
   hbig : anyBigFiles files = true → v3 = true ∧ allV3Files files = true
 
 theorem wfFv_ffs {zv : Bytes} {v3 : Bool} {attrs rev rsv : Nat} {blocks : List Block} {ext : Option ExtI}
@@ -146,8 +144,8 @@ theorem wfFv_ffs {zv : Bytes} {v3 : Bool} {attrs rev rsv : Nat} {blocks : List B
     WfFfs zv v3 attrs rev rsv blocks ext files free := by
   simp only [wfFv, Bool.and_eq_true, decide_eq_true_eq, beq_iff_eq, bne_iff_ne, Bool.or_eq_true,
     List.isEmpty_iff, Bool.not_eq_true', List.isEmpty_eq_false_iff] at h
-  obtain ⟨⟨⟨⟨⟨⟨⟨⟨⟨⟨⟨⟨⟨⟨h1, h2⟩, h3⟩, h4⟩, h5⟩, h6⟩, h7⟩, h8⟩, h9⟩, h10⟩, h11⟩, h12⟩, h13⟩, h14⟩, h15⟩ := h
-  refine ⟨h1, h2, h3, h4, h5, h6, h7, h8, ?_, h10, h11, h12, h13, h14, ?_⟩
+  obtain ⟨⟨⟨⟨⟨⟨⟨⟨⟨⟨⟨⟨⟨h1, h2⟩, h3⟩, h4⟩, h5⟩, h6⟩, h7⟩, h8⟩, h9⟩, h10⟩, h11⟩, h12⟩, h13⟩, h15⟩ := h
+  refine ⟨h1, h2, h3, h4, h5, h6, h7, h8, ?_, h10, h11, h12, h13, ?_⟩
   · intro e he
     subst he
     simp only [Bool.and_eq_true, decide_eq_true_eq, beq_iff_eq] at h9
